@@ -68,4 +68,103 @@ example :
                  (.lam ["x"] (Q.call "Select" [.var "x", .lam ["y"] (.var "x")])) := by
   rw [alpha]; decide
 
+
+/-! ## (c) position of MetaData calls -/
+
+/-- **C08.md_outermost_first** — `extract_metadata` returns the dictionaries outermost first: a MetaData call wrapped
+around a query puts its dictionary in front of everything found inside. -/
+theorem md_outermost_first (q m : Q) : strip (wrapMd q m) = ((strip q).1, m :: (strip q).2) := by
+  simp [wrapMd, strip_app_md, isMdHead]
+
+/-- **C08.md_stripped** — wherever a MetaData call is attached — at any depth of the chain, inside lambda bodies, around
+any sub-expression that `extract_metadata` walks — the query that is left after extraction is the same. -/
+theorem md_stripped (q q1 m : Q) (p : List Step) (h : attachAt m p q = some q1) (hv : validPos p q = true) :
+    (strip q1).1 = (strip q).1 :=
+  (attach_spec m p q q1 h hv).1
+
+/-- **C08.md_position** — full statement of (c) for one MetaData call: for any two positions `p`, `p'` of a query that
+carries no other metadata, extraction gives the same query and the same metadata list. -/
+theorem md_position (q q1 q2 m : Q) (p p' : List Step)
+    (h1 : attachAt m p q = some q1) (hv1 : validPos p q = true)
+    (h2 : attachAt m p' q = some q2) (hv2 : validPos p' q = true)
+    (hq : (strip q).2 = []) : strip q1 = strip q2 := by
+  obtain ⟨a1, l1, r1, b1, c1⟩ := attach_spec m p q q1 h1 hv1
+  obtain ⟨a2, l2, r2, b2, c2⟩ := attach_spec m p' q q2 h2 hv2
+  rw [hq] at b1 b2
+  have e1 : l1 = [] ∧ r1 = [] := by simpa using b1.symm
+  have e2 : l2 = [] ∧ r2 = [] := by simpa using b2.symm
+  rw [e1.1, e1.2] at c1
+  rw [e2.1, e2.2] at c2
+  exact Prod.ext (a1.trans a2.symm) (c1.trans c2.symm)
+
+/-- **C08.md_inserted** — in a query that already carries metadata, the new dictionary is inserted somewhere into the
+list, the others keep their order: where exactly depends on the position (outermost first). -/
+theorem md_inserted (q q1 m : Q) (p : List Step) (h : attachAt m p q = some q1) (hv : validPos p q = true) :
+    ∃ l r, (strip q).2 = l ++ r ∧ (strip q1).2 = l ++ m :: r :=
+  (attach_spec m p q q1 h hv).2
+
+/-- **C08.md_perm** — so two placements of the same dictionary give metadata lists that are permutations of each other… -/
+theorem md_perm (q q1 q2 m : Q) (p p' : List Step)
+    (h1 : attachAt m p q = some q1) (hv1 : validPos p q = true)
+    (h2 : attachAt m p' q = some q2) (hv2 : validPos p' q = true) :
+    (strip q1).1 = (strip q2).1 ∧ (strip q1).2.Perm (strip q2).2 := by
+  obtain ⟨a1, l1, r1, b1, c1⟩ := attach_spec m p q q1 h1 hv1
+  obtain ⟨a2, l2, r2, b2, c2⟩ := attach_spec m p' q q2 h2 hv2
+  refine ⟨a1.trans a2.symm, ?_⟩
+  rw [c1, c2]
+  have e1 : (l1 ++ m :: r1).Perm (m :: (strip q).2) := by rw [b1]; exact List.perm_middle
+  have e2 : (l2 ++ m :: r2).Perm (m :: (strip q).2) := by rw [b2]; exact List.perm_middle
+  exact e1.trans e2.symm
+
+/-- … and the same holds for any number of MetaData calls attached one after the other at arbitrary valid positions:
+the extracted query is the one without metadata, the list is a permutation of the attached dictionaries. -/
+theorem md_many (pl : List (List Step × Q)) (q q' : Q) (h : attachMany pl q = some q') :
+    (strip q').1 = (strip q).1 ∧ (strip q').2.Perm (pl.map (·.2) ++ (strip q).2) := by
+  induction pl generalizing q with
+  | nil => simp [attachMany] at h; subst h; simp
+  | cons pm rest ih =>
+    obtain ⟨p, m⟩ := pm
+    simp only [attachMany] at h
+    by_cases hv : validPos p q = true
+    · simp only [hv, if_true] at h
+      cases h1 : attachAt m p q with
+      | none => simp [h1] at h
+      | some q1 =>
+        simp only [h1, Option.bind_some] at h
+        obtain ⟨a, l, r, b, c⟩ := attach_spec m p q q1 h1 hv
+        obtain ⟨a', c'⟩ := ih q1 h
+        refine ⟨a'.trans a, c'.trans ?_⟩
+        rw [c, b]
+        simp only [List.map_cons, List.cons_append]
+        exact (List.Perm.append_left _ List.perm_middle).trans List.perm_middle
+    · simp [hv] at h
+
+/-- **C08.proc_perm_partial** — `process_metadata` (with the executor's use of its result) on two orders of the same
+items.  Full statement: the registries are the same for every permutation.  That is false as it stands — the later of two
+different declarations of one method wins, injected blocks and job scripts are emitted in list order — so the hypothesis
+`commutingAll` (decidable) asks that no two items conflict: same table and key ⇒ same content; injected blocks /
+scripts pairwise equal; at most one class of failing item. Under it the result (state or error class) is the same for
+all orders, from any starting state. -/
+theorem proc_perm_partial (l l' : List MdItem) (hp : l.Perm l') (hc : commutingAll l = true) (s : MdState) :
+    procMd s l = procMd s l' :=
+  procMd_perm hp ((commutingAll_iff l).1 hc) s
+
+/-- the hypothesis cannot be dropped: two declarations of the same method with different types -/
+theorem proc_perm_counterexample :
+    ∃ l l' : List MdItem, l.Perm l' ∧
+      (procMd MdState.init l).toOption.map (fun s => s.types "A::m") ≠
+      (procMd MdState.init l').toOption.map (fun s => s.types "A::m") :=
+  ⟨[.methodType "A::m" "int", .methodType "A::m" "double"], [.methodType "A::m" "double", .methodType "A::m" "int"],
+    List.Perm.swap _ _ _, by decide⟩
+
+/-- non-vacuity of (c): the same dictionary at the top of a two-step chain, at the dataset, and inside a lambda body -/
+example :
+    let q := Q.call "Select" [Q.call "Where" [Q.call "EventDataset" [], .lam ["e"] (.lit "bool:True")],
+                              .lam ["e"] (Q.call "Count" [.app (Q.attr (.var "e") "Jets") [.lit "str:'J'"]])]
+    let m := Q.node "dict" [.lit "str:'metadata_type'", .lit "str:'inject_code'"]
+    (attachAt m [] q).map strip = (attachAt m [.arg 0, .arg 0] q).map strip ∧
+    (attachAt m [] q).map strip = (attachAt m [.arg 1, .body, .arg 0] q).map strip ∧
+    validPos [.arg 1, .body, .arg 0] q = true := by
+  decide
+
 end FaxVerif.C08
